@@ -34,7 +34,7 @@ a well-typed default (`WT` demands it) that is the class of the field's resolved
 that does not list a NON-optional field stands for the Go field as the constructor left it: the default
 (written as such), else the Go zero value (`zeroEvents`). The emitted service args/result structs are
 made by zero literals, not constructors; their fields carry no defaults (C03's assumption).
-Doubles are compared by their IEEE bits here; Go compares floats (differs for -0.0 / NaN only).
+Doubles are compared as Go compares float64 (`goEq` / `dblEq`: NaN differs from everything, -0.0 = 0.0).
 -/
 import FV.Basic
 
@@ -176,11 +176,26 @@ def cmpDflt (sd : StructDef) (f : Field) : Option Val :=
     | none => none
   else none
 
+/-- Go's `==` on float64, on IEEE-754 bit patterns: a NaN (exponent all ones, fraction non-zero) equals
+nothing, not even itself; +0.0 and -0.0 are equal; otherwise equality of the bits. -/
+def dblIsNaN (b : Nat) : Bool := (b / 4503599627370496) % 2048 == 2047 && b % 4503599627370496 != 0
+def dblIsZero (b : Nat) : Bool := b % 9223372036854775808 == 0
+def dblEq (a b : Nat) : Bool := !(dblIsNaN a) && !(dblIsNaN b) && ((dblIsZero a && dblIsZero b) || a == b)
+
+/-- The comparison the emitted `IsSet<F>()` makes between a non-pointer field and its default:
+`p.F != T_F_DEFAULT` is Go's `!=` of the field's type — on doubles the float comparison `dblEq` (NaN is
+never equal, so a NaN field is always set; -0.0 against a 0.0 default is NOT set), `bytes.Equal` on
+binary, plain equality on the rest. -/
+def goEq (v w : Val) : Bool :=
+  match v, w with
+  | .dbl a, .dbl b => dblEq a b
+  | _, _ => Val.beq v w
+
 /-- The emitted `IsSet<F>()` of a field holding `v` (`p.F != T_F_DEFAULT`; pointer fields and fields
 without default: listed = set). -/
 def isSetVal (sd : StructDef) (f : Field) (v : Val) : Bool :=
   match cmpDflt sd f with
-  | some dv => !(Val.beq v dv)
+  | some dv => !(goEq v dv)
   | none => true
 
 /-- `IsSet<F>()` on a struct value with listed fields `fs` (what `CountSetFields…()` of a union counts). -/
